@@ -97,6 +97,40 @@ def check_generate(ctx, rule='C06.RECORD', network_only=False):
                                % (pth, ty), fgen.where)
 
 
+def check_node_versions(ctx, rule):
+    """node_extended_public/private_key pick the SLIP-132 version from (purpose of the node's path, key type, the
+    WALLET's network) - never from the coin type or anything else in the path."""
+    p = ctx.p
+    fdet = p.get_function('base_wallet.BaseWallet.determine_node_version_int')
+    BW = PKG + '.base_wallet.BaseWallet'
+    for be in BACKENDS:
+        with ctx.obligation(rule, 'BaseWallet.node_extended_public_key/private_key', be, fdet.where) as ob:
+            ev = Evaluator(p, be)
+            ev.step_budget = 2000000
+            for tn in (False, True):
+                m, k = master_prv(testnet=T.const(tn))
+                w = T.obj(BW, dict(master=m, testnet=T.const(tn), mnemonic=T.NONE, password=T.NONE, bip85=T.NONE))
+                for purpose in (44, 49, 84, 7):
+                    for coin in (0, 1):
+                        path = [purpose + H, coin + H, 5 + H]
+                        node, _ = ev.call_function('bip32.PubKeyNode.derive_path', [m, T.lst([T.const(x) for x in path])])
+                        nodes = distinct_normal_leaves(node)
+                        if len(nodes) != 1:
+                            ob.undecided('derive_path gave %d results' % len(nodes))
+                            continue
+                        bip = 'BIP%d' % purpose if purpose in (44, 49, 84) else 'BIP44'
+                        net = 'test' if tn else 'main'
+                        for kt, meth in (('PUB', 'node_extended_public_key'), ('PRV', 'node_extended_private_key')):
+                            v, _ = ev.call_function('base_wallet.BaseWallet.' + meth, [w, nodes[0]])
+                            ver = slip132.TABLE[(kt, net, bip)]
+                            ok = False
+                            for leaf in distinct_normal_leaves(v):
+                                ok = T.is_op(leaf, 'B58ENC') and T.slice_(leaf[2], T.const(0), T.const(4)) == T.const(ver.to_bytes(4, 'big'))
+                            ob.require(ok, "%s of the node at m/%d'/%d'/5' on a %s wallet must carry version 0x%08X (%s)" % (
+                                meth, purpose, coin, 'testnet' if tn else 'mainnet', ver, slip132.LABELS[ver]), fdet.where,
+                                found=T.show(T.slice_(leaf[2], T.const(0), T.const(4))) if T.is_op(leaf, 'B58ENC') else T.show(v, maxdepth=3))
+
+
 def run(ctx):
     p = ctx.p
     ctx.explanation = (
@@ -109,6 +143,7 @@ def run(ctx):
         'arithmetic. json()/wasabi_json() terms; output leaves are JSON-compatible.')
     ctx.not_decided = ['json.dumps/loads round-trip itself (trusted)', 'primitive correctness on values']
     check_generate(ctx)
+    check_node_versions(ctx, 'C06.NODEVERSION')
     # ---------------------------------------------------------------- siblings
     with ctx.obligation('C06.SIBLING', 'PaperWallet.bip44/bip49/bip84', None, p.get_function('paper_wallet.PaperWallet.bip44').where) as ob:
         dumps = {}
